@@ -720,6 +720,8 @@ void abtv_event(int kind, const void *obj, const void *who)
 {
     if (kind == 6 /* ABTV_EV_MEM_LOCAL_POOL_ACCESS */ && !G.frozen)
         wb_local_pool_access(obj);
+    if (kind == 7 /* ABTV_EV_MEM_LOCAL_POOL_INIT */)
+        wb_local_pool_reset(obj);
     if (G.event_cb)
         G.event_cb(kind, obj, who);
 }
